@@ -72,6 +72,8 @@ FAULT_MATCH = {
     "eio_read": ("read",),
     "short_read": ("read",),
     "eio_close": ("close_w",),
+    "eagain_write": ("write",),
+    "eintr_write": ("write",),
 }
 
 
@@ -90,11 +92,12 @@ class _DetNames:
 
 
 class Node:
-    __slots__ = ("data", "gen")
+    __slots__ = ("data", "gen", "mtime")
 
     def __init__(self):
         self.data = bytearray()
         self.gen = 0
+        self.mtime = 0.0
 
 
 class SimRaw(io.RawIOBase):
@@ -159,6 +162,7 @@ class SimRaw(io.RawIOBase):
         nd[self.pos:self.pos + len(data)] = data
         self.pos += len(data)
         self.node.gen += 1
+        self.node.mtime = self.fs.now          # modification time = the simulated clock (stalls with it)
         self.fs.bytes_written += len(data)
 
     def seek(self, off, whence=0):
@@ -329,6 +333,11 @@ class SimWorld:
                 return ("partial", int(f.get("k", 0)), errno.ENOSPC)
             if k == "short_write":
                 return ("short", int(f.get("k", 1)))
+            if k == "eagain_write":
+                return ("partial", int(f.get("k", 0)), errno.EAGAIN)
+            if k == "eintr_write":
+                # a signal arrives before any byte is transferred; CPython's io layer retries by itself
+                return ("partial", 0, errno.EINTR)
             if k == "eacces_open":
                 raise PermissionError(errno.EACCES, "Permission denied (simulated)", path)
             if k == "enoent_open":
@@ -400,6 +409,7 @@ class SimWorld:
             if node.data:
                 del node.data[:]
             node.gen += 1
+            node.mtime = self.now
         raw = SimRaw(self, p, node, reading or updating, wr, appending)
         if binary and buffering == 0:
             return raw
@@ -433,7 +443,9 @@ class SimWorld:
             if parent in self.files:
                 raise NotADirectoryError(errno.ENOTDIR, "Not a directory", p)
             raise FileNotFoundError(errno.ENOENT, "No such file or directory", p)
-        return os.stat_result((statmod.S_IFREG | 0o644, 2, 1, 1, 0, 0, len(n.data), 0, 0, 0))
+        mt = int(n.mtime)
+        return os.stat_result((statmod.S_IFREG | 0o644, 2, 1, 1, 0, 0, len(n.data), mt, mt, mt,
+                               n.mtime, n.mtime, n.mtime))
 
     def lstat(self, path, *a, **kw):
         if (self.resolve(path) if not isinstance(path, int) else None) is None:
